@@ -126,3 +126,34 @@ Proof.
     destruct H1 as [Hn1 Hg1]. destruct (IH a1 a' Hn1 H) as [Hn' Hg']. split; [exact Hn'|].
     intros k. rewrite Hg', Hg1. cbn [first_get]. destruct (map_get k a); [reflexivity|]. destruct (opt_get k o); reflexivity.
 Qed.
+
+(* ---- what the options leave behind is what the invocation constructor's theorems ask of the arguments ---- *)
+Definition vals_ok (a : cont) : bool := forallb (fun kv => ints_in53 (snd kv)) a.
+Definition aopt_ok (o : aopt) : bool := match o with OArg _ _ => true | OArgs other => vals_ok other end.
+
+Lemma vals_ok_app a b : vals_ok (a ++ b) = vals_ok a && vals_ok b.
+Proof. unfold vals_ok. apply forallb_app. Qed.
+
+Lemma include_vals_ok other : forall a, vals_ok a = true -> vals_ok other = true -> vals_ok (c_include a other) = true.
+Proof.
+  unfold c_include. induction other as [|kv r IH]; intros a Ha Ho; cbn [fold_left]; [exact Ha|].
+  cbn [vals_ok forallb] in Ho. apply andb_true_iff in Ho as [Hk Hr]. apply IH; [|exact Hr].
+  destruct (has_key (fst kv) a); [exact Ha|]. rewrite vals_ok_app, Ha. cbn. rewrite Hk. reflexivity.
+Qed.
+
+Theorem options_leave_valid_arguments os : forall a a', NoDup (map fst a) -> vals_ok a = true ->
+  forallb aopt_ok os = true -> apply_aopts a os = Ok a' ->
+  keys_nodup a' = true /\ vals_ok a' = true.
+Proof.
+  induction os as [|o r IH]; intros a a' Hn Hv Ho H; cbn [apply_aopts] in H.
+  - injection H as <-. split; [apply keys_nodup_iff; exact Hn|exact Hv].
+  - cbn [forallb] in Ho. apply andb_true_iff in Ho as [Ho1 Hor].
+    destruct (apply_aopt a o) as [a1|e|] eqn:E; try discriminate.
+    assert (H1 : NoDup (map fst a1) /\ vals_ok a1 = true).
+    { destruct o as [k0 v0|other]; cbn [apply_aopt] in E.
+      - destruct (add_stores_exactly true a k0 v0 a1 Hn E) as (Hn1 & _ & _ & _ & Hi). split; [exact Hn1|].
+        unfold c_add in E. destruct (has_key k0 a); [discriminate|]. destruct (true && negb (ints_in53 v0)); [discriminate|].
+        injection E as <-. rewrite vals_ok_app, Hv. cbn. rewrite (Hi eq_refl). reflexivity.
+      - injection E as <-. split; [apply include_first_wins; exact Hn|apply include_vals_ok; assumption]. }
+    destruct H1 as [Hn1 Hv1]. exact (IH a1 a' Hn1 Hv1 Hor H).
+Qed.
